@@ -141,14 +141,15 @@ def gen_mixed_batch(pyrng, nmax=10):
     return c
 
 
-def coq_elem_cases(c, obs):
+def coq_elem_cases(c, obs, capped=False):
     """one single-start Coq case per batch element (element b of the batched call against the run on v_b alone)"""
     S = dense_of(c)
     V = dec(c["v"])
     out = []
     for b in range(len(obs["Q"])):
         el = "(" + coq_mat(dec(obs["Q"][b])) + "," + coq_mat(dec(obs["H"][b])) + ")"
-        out.append(f"mk_acase {c['n']} {coq_mat(S)} {coq_mat(V[b:b + 1])} {c['max_iters']} {hexf(c['tol'])} [{el}]")
+        t = f"mk_acase {c['n']} {coq_mat(S)} {coq_mat(V[b:b + 1])} {c['max_iters']} {hexf(c['tol'])} [{el}]"
+        out.append(f"cap_case ({t})" if capped else t)
     return out
 
 
@@ -244,13 +245,15 @@ def run_impl(c):
     return obs
 
 
-def coq_case(c, obs):
+def coq_case(c, obs, capped=False):
+    """capped: compare with the repaired model variant arnoldi_batch_capped (probe says arnoldi_padding is gone)"""
     S = dense_of(c)
     V = dec(c["v"])
     outs = []
     for b in range(len(obs["Q"])):
         outs.append("(" + coq_mat(dec(obs["Q"][b])) + "," + coq_mat(dec(obs["H"][b])) + ")")
-    return f"mk_acase {c['n']} {coq_mat(S)} {coq_mat(V)} {c['max_iters']} {hexf(c['tol'])} [" + ";".join(outs) + "]"
+    t = f"mk_acase {c['n']} {coq_mat(S)} {coq_mat(V)} {c['max_iters']} {hexf(c['tol'])} [" + ";".join(outs) + "]"
+    return f"cap_case ({t})" if capped else t
 
 
 HEADER = """From Coq Require Import List PrimFloat.
@@ -309,6 +312,8 @@ def oracle(c, obs, present=frozenset()):
     S = np.asarray(dense_of(c), dtype=complex)
     n, m = c["n"], c["max_iters"]
     cap = min(m, n)
+    if m > n and obs.get("shapes") == [[n, cap + 1], [cap + 1, cap]]:
+        m = cap          # the n-step factorisation itself, without zero padding: what "the same factorisation as n steps" asks for
     scale = max(np.abs(S).max(), 1e-300)
     V = dec(c["v"])
     garbage_ok = "arnoldi_clip_garbage" in present
